@@ -27,13 +27,60 @@ use versatiles_core::types::*;
 pub struct Set {
 	pub tiles: TileMap,
 	pub levels: BTreeMap<u8, Box4>,
+	/// order in which the source streams the tiles of a box: 0 = row-major (the trait's default stream),
+	/// 1 = reversed, 2 = pseudo-randomly shuffled (checklist class 6: the writers must not depend on the order)
+	pub order: u8,
 }
+
+/// `MemSource` with a bbox stream in another order
+#[derive(Debug)]
+pub struct OrderSource {
+	inner: MemSource,
+	order: u8,
+}
+#[async_trait::async_trait]
+impl TilesReaderTrait for OrderSource {
+	fn get_source_name(&self) -> &str {
+		self.inner.get_source_name()
+	}
+	fn get_container_name(&self) -> &str {
+		self.inner.get_container_name()
+	}
+	fn get_parameters(&self) -> &TilesReaderParameters {
+		self.inner.get_parameters()
+	}
+	fn override_compression(&mut self, c: TileCompression) {
+		self.inner.override_compression(c)
+	}
+	fn get_tilejson(&self) -> &versatiles_core::tilejson::TileJSON {
+		self.inner.get_tilejson()
+	}
+	async fn get_tile_data(&self, coord: &TileCoord3) -> anyhow::Result<Option<Blob>> {
+		self.inner.get_tile_data(coord).await
+	}
+	async fn get_bbox_tile_stream(&self, bbox: TileBBox) -> TileStream {
+		if self.order == 0 {
+			return self.inner.get_bbox_tile_stream(bbox).await;
+		}
+		let mut v: Vec<(TileCoord3, Blob)> = self.inner.get_bbox_tile_stream(bbox).await.collect().await;
+		if self.order == 1 {
+			v.reverse();
+		} else {
+			v.sort_by_key(|(c, _)| ((c.x as u64).wrapping_mul(0x9E37_79B9).wrapping_add((c.y as u64).wrapping_mul(0x85EB_CA6B))) % 1009);
+		}
+		TileStream::from_vec(v)
+	}
+}
+
 impl Set {
 	pub fn exact(tiles: TileMap) -> Set {
 		let levels = c16::bbox_of(tiles.keys());
-		Set { tiles, levels }
+		Set { tiles, levels, order: 0 }
 	}
-	fn source(&self, fmt: Fmt, comp: Comp) -> MemSource {
+	fn source(&self, fmt: Fmt, comp: Comp) -> OrderSource {
+		OrderSource { inner: self.mem_source(fmt, comp), order: self.order }
+	}
+	fn mem_source(&self, fmt: Fmt, comp: Comp) -> MemSource {
 		let v: Vec<(TileCoord3, Blob)> = self.tiles.iter().map(|((z, x, y), p)| (TileCoord3::new(*x, *y, *z).unwrap(), Blob::from(p.clone()))).collect();
 		let mut pyr = TileBBoxPyramid::new_empty();
 		for (z, b) in &self.levels {
@@ -97,7 +144,8 @@ impl Target {
 }
 
 fn x_line(t: Target, f: Fmt, c: Comp, set: &Set) -> String {
-	format!("C01x {} {} {} {} {}", t.name(), f.name(), c.name(), set.levels_str(), set.tiles_str())
+	let o = if set.order == 0 { String::new() } else { format!(" o{}", set.order) };
+	format!("C01x {} {} {} {} {}{o}", t.name(), f.name(), c.name(), set.levels_str(), set.tiles_str())
 }
 
 /// coordinates to look up: advertised ∪ source coverage grown by 1 (clipped), neighbours of all tiles, a few on absent levels
@@ -288,6 +336,36 @@ pub fn run_case(ctx: &mut Ctx, target: Target, fmt: Fmt, comp: Comp, set: &Set) 
 			if !accepted {
 				oc.counts.push(format!("write_unsupported_pair_written_{}", target.name()));
 			}
+			// checklist class 5: the same source written with `write_to_path` onto an EXISTING, LONGER file gives the same bytes
+			if set.tiles.len() % 3 == 0 && bytes.len() < 250_000 {
+				let path = ctx.scratch.fresh(if target == Target::V { ".versatiles" } else { ".pmtiles" });
+				std::fs::write(&path, vec![0x5Au8; bytes.len() + 70_000]).unwrap();
+				let mut src2 = set.source(fmt, comp);
+				let w2 = catch(|| {
+					if target == Target::V {
+						ctx.rt.block_on(VersaTilesWriter::write_to_path(&mut src2, &path))
+					} else {
+						ctx.rt.block_on(PMTilesWriter::write_to_path(&mut src2, &path))
+					}
+				});
+				let on_disk = std::fs::read(&path).unwrap_or_default();
+				rm(&path);
+				oc.counts.push(format!("preexisting_output_{}", target.name()));
+				// the block index of a versatiles file is written in HashMap order: compare what the reader sees instead
+				let same = match (&w2, target) {
+					(Ok(Ok(())), Target::P) => on_disk == bytes,
+					// (the compressed block index may differ by a few bytes with the record order; the old file must be truncated)
+					(Ok(Ok(())), _) => on_disk.len().abs_diff(bytes.len()) <= 64 && {
+						let qs: Vec<Coord> = set.tiles.keys().copied().collect();
+						answer(&c16::run_v(&ctx.rt, &on_disk, &qs)) == answer(&c16::run_v(&ctx.rt, &bytes, &qs))
+					},
+					_ => false,
+				};
+				if !same {
+					oc.failure = Some(("preexisting-output", format!("write_to_path onto an existing longer file: {} bytes on disk, {} bytes expected ({})", on_disk.len(), bytes.len(), match w2 { Ok(Ok(())) => "content differs".to_string(), Ok(Err(e)) => format!("Err {e:#}"), Err(p) => format!("panic {p}") })));
+					return oc;
+				}
+			}
 			// (a) real reader
 			let open = |qs: &[Coord]| -> OpenRes {
 				if target == Target::V {
@@ -346,7 +424,9 @@ pub fn run_case(ctx: &mut Ctx, target: Target, fmt: Fmt, comp: Comp, set: &Set) 
 					if ok && p.bi_off >= 66 {
 						let req = format!("C01v {} {} {} {} {} {} {} {} {} {}", fmt.vt_code(), comp.vt_code(), p.bbox[0], p.bbox[1], p.bbox[2], p.bbox[3], hexs(&meta), set.levels_str(), set.tiles_str(), tab_str(&tab));
 						let ans = format!("ok {} {:016x} {} {}", bytes.len(), fnv64(&bytes[66..p.bi_off as usize]), hexs(&bytes[..66]), hexs(&sorted));
-						if req.len() <= c16::MAX_LINE {
+						if set.order != 0 {
+							oc.counts.push("order_dependent_line_skipped_C01v".into());
+						} else if req.len() <= c16::MAX_LINE {
 							oc.lines.push((req, ans));
 						} else {
 							oc.counts.push("line_too_long_C01v".into());
@@ -396,7 +476,9 @@ pub fn run_case(ctx: &mut Ctx, target: Target, fmt: Fmt, comp: Comp, set: &Set) 
 						);
 						let ans = format!("ok {} {:016x} {}", bytes.len(), fnv64(&bytes), hexs(&bytes[..127]));
 						// the root-boundary sets (≈ 7000 tiny tiles) are compared with the Lean writer model as well
-						if req.len() <= c16::MAX_LINE || (req.len() <= 600_000 && set.tiles.len() < 12_000) {
+						if set.order != 0 {
+							oc.counts.push("order_dependent_line_skipped_C01p".into());
+						} else if req.len() <= c16::MAX_LINE || (req.len() <= 600_000 && set.tiles.len() < 12_000) {
 							oc.lines.push((req, ans));
 						} else {
 							oc.counts.push("line_too_long_C01p".into());
@@ -422,10 +504,23 @@ pub fn run_case(ctx: &mut Ctx, target: Target, fmt: Fmt, comp: Comp, set: &Set) 
 			let req = match target {
 				Target::M if accepted => Some(format!("C01m {} {} {}", fmt.name(), set.levels_str(), set.tiles_str())),
 				Target::M => None,
+				Target::T if set.order != 0 => None,
 				Target::T => Some(format!("C01t {} {} {} {}", fmt.name(), comp.name(), set.levels_str(), set.tiles_str())),
 				_ => Some(format!("C01d {} {} {} {}", fmt.name(), comp.name(), set.levels_str(), set.tiles_str())),
 			}
 			.filter(|r| r.len() <= c16::MAX_LINE);
+			// checklist class 5: the output already exists – a longer file of garbage (mbtiles, tar), a directory that
+			// already holds unrelated files (directory)
+			if set.tiles.len() % 2 == 0 {
+				oc.counts.push(format!("preexisting_output_{}", target.name()));
+				match target {
+					Target::D => {
+						std::fs::create_dir_all(&path).unwrap();
+						std::fs::write(path.join("README.txt"), b"not a tile").unwrap();
+					}
+					_ => std::fs::write(&path, vec![0xA5u8; 300_000]).unwrap(),
+				}
+			}
 			let w = catch(|| match target {
 				Target::M => rt.block_on(MBTilesWriter::write_to_path(&mut src, &path)),
 				Target::T => rt.block_on(TarTilesWriter::write_to_path(&mut src, &path)),
@@ -468,6 +563,10 @@ pub fn run_case(ctx: &mut Ctx, target: Target, fmt: Fmt, comp: Comp, set: &Set) 
 			let qs = lookups(set, &cover);
 			let res = open(&qs);
 			oc.failure = judge_reader(set, fmt, comp, target, &qs, &res, &mut oc.counts);
+			// the strict independent decoder knows nothing about the unrelated file of the pre-existing directory
+			if target == Target::D {
+				let _ = std::fs::remove_file(path.join("README.txt"));
+			}
 			let dec = match target {
 				Target::M => decode_mbtiles(&path),
 				Target::T => std::fs::read(&path).map_err(|e| e.to_string()).and_then(|b| decode_tar(&b)),
@@ -570,7 +669,9 @@ fn shrink(set: &Set, mut still_fails: impl FnMut(&Set) -> bool) -> Set {
 }
 
 pub fn emit_case(ctx: &mut Ctx, shrunk: &mut BTreeMap<String, u32>, target: Target, fmt: Fmt, comp: Comp, set: &Set, kind: &str) {
+	let t_case = std::time::Instant::now();
 	let oc = run_case(ctx, target, fmt, comp, set);
+	ctx.out.count_n(&format!("ms_{kind}_{}", target.name()), t_case.elapsed().as_millis() as u64);
 	let dedup = set.dedup();
 	let nontrivial = set.tiles.len() >= 2 && oc.write_ok;
 	ctx.out.count(&format!("container_{}", target.name()));
@@ -693,6 +794,32 @@ pub fn gen_set(rng: &mut Rng, kind: &str) -> Set {
 				}
 			}
 		}
+		"extreme" => {
+			// checklist class 8: zoom 0 / 1 / 30 / 31, a small cluster in one corner of the level (the level box stays
+			// small: the oracle enumerates the coverage)
+			let z = *rng.pick(&[0u8, 1, 30, 31]);
+			let m = ((1u64 << z) - 1) as u32;
+			let (cx, cy) = *rng.pick(&[(0u32, 0u32), (m, m), (0, m), (m, 0)]);
+			let inward = |c: u32, d: u32| if c == 0 { d.min(m) } else { c - d.min(m) };
+			for (dx, dy) in [(0u32, 0u32), (1, 0), (0, 1), (1, 1)] {
+				if (dx, dy) == (0, 0) || rng.chance(2, 3) {
+					tiles.insert((z, inward(cx, dx), inward(cy, dy)), rng.pick(&pool).clone());
+				}
+			}
+			if z > 0 && rng.chance(1, 2) {
+				tiles.insert((0, 0, 0), vec![0x30]);
+			}
+		}
+		"payloads" => {
+			// checklist class 3: empty, one byte, identical duplicates within and across blocks, tar block sizes, a payload
+			// larger than the small internal buffers
+			let z = 9u8;
+			let sizes = [0usize, 1, 1, 511, 512, 513, 70_000, 70_000, 2];
+			for (i, n) in sizes.iter().enumerate() {
+				let p: Vec<u8> = (0..*n).map(|k| (k % 253) as u8).collect();
+				tiles.insert((z, 254 + (i as u32 % 4), 254 + (i as u32 / 4)), p);
+			}
+		}
 		"zoomgap" => {
 			let mut z = rng.range(0, 3) as u8;
 			for _ in 0..rng.range(2, 4) {
@@ -801,6 +928,12 @@ fn parse_tiles(t: &[&str]) -> Option<(TileMap, usize)> {
 	Some((m, 1 + 4 * n))
 }
 fn parse_set(t: &[&str]) -> Option<Set> {
+	// optional trailing `o1` / `o2`: stream order of the source
+	let (t, order) = match t.last() {
+		Some(&"o1") => (&t[..t.len() - 1], 1u8),
+		Some(&"o2") => (&t[..t.len() - 1], 2u8),
+		_ => (t, 0u8),
+	};
 	let (levels, k) = parse_levels(t)?;
 	let (tiles, _) = parse_tiles(&t[k..])?;
 	// the pyramid must contain the tiles and be valid
@@ -815,7 +948,7 @@ fn parse_set(t: &[&str]) -> Option<Set> {
 			return None;
 		}
 	}
-	Some(Set { tiles, levels })
+	Some(Set { tiles, levels, order })
 }
 
 fn replay_line(ctx: &mut Ctx, shrunk: &mut BTreeMap<String, u32>, line: &str) -> Option<()> {
@@ -853,7 +986,7 @@ pub fn run(args: &Args) {
 	self_test().expect("independent Hilbert implementation self test");
 	let mut ctx = c16::new_ctx(args, "c01-scratch");
 	let mut shrunk: BTreeMap<String, u32> = BTreeMap::new();
-	ctx.out.rule = "tile sets (single tile; sparse clusters; dense boxes; zoom gaps; both sides of the 256 grid at zoom 9–12 with x or y in {254,255,256,257,511,512}; duplicate payloads and sizes 999/1000/1001 around the de-duplication threshold; dense boxes of tiny tiles with additively related lengths (1..6, {10,20,30}, arithmetic progressions, Fibonacci-like) streamed row-major, i.e. not in tile-id order; a few hundred tiles; boundary-seeking sets (crate::boundary): PMTiles sets whose gzip-compressed root directory is exactly 16257, 16258, 16384, 16385 bytes long (budget 16384-127; more deltas in the thorough tier), PMTiles sets with exactly 16383 / 16384 entries, MBTiles sets of 2000 / 2001 tiles (insert batch size); 130×130 = 16900 tiles at zoom 8 so that PMTiles needs leaf directories (one PMTiles case in the quick tier, five targets in the thorough tier); a third of the sets with a pyramid widened beyond the tiles) written with every real writer: the first set with ALL 30 (format, compression) pairs per target (incl. the pairs a target cannot express: Err is fine, a silent change is a failure), later sets with rotating pairs (versatiles 3, pmtiles 3, mbtiles 2, tar 2, directory 2 per set). Payloads are opaque bytes. A case is non-trivial when the set has ≥ 2 tiles and the writer succeeded; distinct by request text".into();
+	ctx.out.rule = "tile sets (single tile; sparse clusters; dense boxes; zoom gaps; both sides of the 256 grid at zoom 9–12 with x or y in {254,255,256,257,511,512}; duplicate payloads and sizes 999/1000/1001 around the de-duplication threshold; extreme coordinates (zoom 0/1/30/31 corners); payload classes (0, 1, 511-513, 70000 bytes, duplicates); every third set streamed by the source reversed or shuffled; outputs written over pre-existing longer files / non-empty directories; dense boxes of tiny tiles with additively related lengths (1..6, {10,20,30}, arithmetic progressions, Fibonacci-like) streamed row-major, i.e. not in tile-id order; a few hundred tiles; boundary-seeking sets (crate::boundary): PMTiles sets whose gzip-compressed root directory is exactly 16257, 16258, 16384, 16385 bytes long (budget 16384-127; more deltas in the thorough tier), PMTiles sets with exactly 16383 / 16384 entries, MBTiles sets of 2000 / 2001 tiles (insert batch size); 130×130 = 16900 tiles at zoom 8 so that PMTiles needs leaf directories (one PMTiles case in the quick tier, five targets in the thorough tier); a third of the sets with a pyramid widened beyond the tiles) written with every real writer: the first set with ALL 30 (format, compression) pairs per target (incl. the pairs a target cannot express: Err is fine, a silent change is a failure), later sets with rotating pairs (versatiles 3, pmtiles 3, mbtiles 2, tar 2, directory 2 per set). Payloads are opaque bytes. A case is non-trivial when the set has ≥ 2 tiles and the writer succeeded; distinct by request text".into();
 	if let Some(p) = &args.replay {
 		for line in std::fs::read_to_string(p).unwrap().lines() {
 			let line = line.trim_end();
@@ -892,7 +1025,7 @@ pub fn run(args: &Args) {
 		}
 	}
 	// 2. generated sets with rotating pairs
-	let kinds_quick = ["single", "sparse", "dense", "additive", "zoomgap", "grid", "threshold", "additive", "hundreds", "sparse", "grid", "additive", "threshold"];
+	let kinds_quick = ["single", "sparse", "dense", "additive", "zoomgap", "grid", "threshold", "extreme", "additive", "hundreds", "sparse", "payloads", "grid", "additive", "threshold", "extreme"];
 	let n = args.n(80, 400);
 	let mut rot = 0usize;
 	// bin/check re-runs the harness with seed + 1000 / + 2000 (thorough tier) to search for a failing input after a
@@ -907,7 +1040,12 @@ pub fn run(args: &Args) {
 			break;
 		}
 		let kind = kinds_quick[i % kinds_quick.len()];
-		let set = gen_set(&mut rng, kind);
+		let mut set = gen_set(&mut rng, kind);
+		// every third set is streamed by the source in another order (reversed / shuffled)
+		set.order = if i % 3 == 2 { 1 + (i / 3 % 2) as u8 } else { 0 };
+		if set.order != 0 {
+			ctx.out.count(&format!("source_stream_order_{}", set.order));
+		}
 		for k in 0..3 {
 			let (f, c) = pairs[(rot + 7 * k) % pairs.len()];
 			emit_case(&mut ctx, &mut shrunk, Target::V, f, c, &set, kind);
